@@ -13,7 +13,7 @@ RULE = (
     "place with the verifier's CBOR reader; decode direction: the verifier encodes the envelope with the registered code, the "
     "tool parses it and the shown description must contain that name and no other name of the key space; every name is also "
     "placed in every other closed key space, where create must raise; tags 107/18/96 are read from created bytes and envelopes "
-    "with an off-by-one tag are offered to parse; authentication blocks re-tagged 17/19/98/96/107/24/untagged inside a two-block wrapper must be refused or shown as something other than COSE_Sign1 with their content still present. Every pair is non-trivial; distinct by (direction, key space, name[, foreign space])."
+    "with an off-by-one tag are offered to parse; authentication blocks re-tagged 17/19/98/96/107/24/untagged inside a two-block wrapper must be refused or shown as something other than COSE_Sign1 with their content still present; tags written with 2/4/8-byte arguments (top level, nested dependency, blocks) must be refused or shown exactly like the shortest form; for every (key space, name) the TEXT STRING spelling the name is put where the integer code belongs in binary input and must be refused or shown differently from the integer. Every pair is non-trivial; distinct by (direction, key space, name[, foreign space])."
 )
 ASSUMPTIONS = [
     "vf/registry.py is a correct transcription of the IANA SUIT/COSE/CWT registries and drafts; five tool-specific codes are marked",
@@ -363,6 +363,189 @@ def _retag(data, old, new, only_nth=None):
     return cb.enc(rec(cb.loads(data)))
 
 
+# ---- a registered integer code and the text string spelling its name are different keys (binary direction)
+
+# where the single entry placed by place(space, name) sits in the envelope: steps are ("k", key) into a map, ("i", index) into a list,
+# "b" through a bstr wrapper, "t" through a tag; the last step names what is replaced
+_WHERE = {
+    "envelope": (["t"], "key"),
+    "manifest": (["t", ("k", 3), "b"], "key"),
+    "common": (["t", ("k", 3), "b", ("k", 3), "b"], "key"),
+    "dependency-metadata": (["t", ("k", 3), "b", ("k", 3), "b", ("k", 1), ("k", 0)], "key"),
+    "commands": (["t", ("k", 3), "b", ("k", 7), "b"], ("i", 0)),
+    "parameters": (["t", ("k", 3), "b", ("k", 7), "b", ("i", 1)], "key"),
+    "hash-algs": (["t", ("k", 2), "b", ("i", 0), "b"], ("i", 0)),
+    "cose-algs": (["t", ("k", 2), "b", ("i", 1), "b", "t", ("i", 0), "b"], ("v", 1)),
+    "cose-header": (["t", ("k", 2), "b", ("i", 1), "b", "t", ("i", 0), "b"], "key"),
+    "cwt-claims": (["t", ("k", 2), "b", ("i", 1), "b", "t", ("i", 2), "b"], "key"),
+    "version-comparators": (["t", ("k", 3), "b", ("k", 7), "b", ("i", 1), ("k", 28), "b"], ("i", 0)),
+    "invoke-args": (["t", ("k", 3), "b", ("k", 7), "b", ("i", 1), ("k", 23), "b"], "key"),
+    "text-keys": (["t", ("k", 23), "b", ("k", "en")], "key"),
+    "text-component-keys": (["t", ("k", 23), "b", ("k", "en"), ("first-value",)], "key"),
+}
+
+
+def _edit(x, steps, last, code, new):
+    """Rebuild x with the item found along `steps` changed: the map key / list element / map value equal to `code` becomes `new`."""
+    if not steps:
+        if last == "key":
+            if not isinstance(x, cb.Pairs) or not x.has(code):
+                raise KeyError(f"no key {code!r}")
+            return cb.Pairs((new if (k == code and type(k) is type(code)) else k, v) for k, v in x)
+        if last[0] == "i":
+            if x[last[1]] != code:
+                raise KeyError(f"element {last[1]} is {x[last[1]]!r}")
+            return [new if j == last[1] else v for j, v in enumerate(x)]
+        if last[0] == "v":
+            if x.get(last[1]) != code:
+                raise KeyError(f"value of {last[1]} is {x.get(last[1])!r}")
+            return cb.Pairs((k, new if k == last[1] else v) for k, v in x)
+        raise KeyError(last)
+    st, rest = steps[0], steps[1:]
+    if st == "t":
+        return cb.Tag(x.tag, _edit(x.value, rest, last, code, new))
+    if st == "b":
+        return cb.enc(_edit(cb.loads(x), rest, last, code, new))
+    if st[0] == "k":
+        return cb.Pairs((k, _edit(v, rest, last, code, new) if k == st[1] else v) for k, v in x)
+    if st[0] == "i":
+        return [_edit(v, rest, last, code, new) if j == st[1] else v for j, v in enumerate(x)]
+    if st[0] == "first-value":
+        items = list(x)
+        return cb.Pairs([(items[0][0], _edit(items[0][1], rest, last, code, new))] + items[1:])
+    raise KeyError(st)
+
+
+def check_text_spelling(space, name, acc):
+    """Binary input in which the text string <name> stands where the registered integer belongs: parse refuses it, or shows something
+    different from what it shows for the integer (at envelope level a text key is an integrated payload of that name)."""
+    if space not in _WHERE or name == "suit-delegation":
+        acc.note("text_spelling_not_applicable")
+        return
+    desc, _ = place(space, name)
+    data = refenc.envelope(copy.deepcopy(desc))
+    code = R.KEY_SPACES[space][name]
+    steps, last = _WHERE[space]
+    try:
+        bad = cb.enc(_edit(cb.loads(data), steps, last, code, name))
+    except (KeyError, IndexError, TypeError, AttributeError, cb.CborError) as e:
+        raise boot.HarnessError(f"cannot place the text spelling of {name} ({space}): {type(e).__name__}: {e}")
+    acc.case(nt_key=("spelling", space, name), classes=["text-spelling", f"space:{space}"], sample={"direction": "text-spelling", "space": space, "name": name, "bytes": bad.hex()},
+             sample_key=f"spell/{space}")
+    try:
+        shown_int = sut.parse_mem(data)
+    except boot.HarnessError:
+        raise
+    except Exception:
+        return  # the decode direction reports this
+    try:
+        shown_txt = sut.parse_mem(bad)
+    except boot.HarnessError:
+        raise
+    except Exception:
+        return
+    if shown_txt == shown_int:
+        raise Violation(f"{space}: the text string {name!r} used as a binary key/code is read as the registered integer {code}", "refusal or a different rendering",
+                        bucket=f"text-spelling:{space}")
+
+
+def _widen_tags(data, which, width, only_nth=None):
+    """Re-encode tag `which` with a `width`-byte argument (valid but not shortest CBOR), everywhere or at its n-th occurrence."""
+    head = {2: b"\xd9", 4: b"\xda", 8: b"\xdb"}[width]
+    seen = [0]
+
+    def rec(x):
+        if isinstance(x, cb.Tag):
+            inner = rec(x.value)
+            if x.tag == which:
+                k = seen[0]
+                seen[0] += 1
+                if only_nth is None or k == only_nth:
+                    return cb.Raw(head + which.to_bytes(width, "big") + cb.enc(inner))
+            return cb.Tag(x.tag, inner)
+        if isinstance(x, cb.Pairs):
+            return cb.Pairs((k, rec(v)) for k, v in x)
+        if isinstance(x, list):
+            return [rec(i) for i in x]
+        if isinstance(x, bytes) and len(x) > 1:
+            try:
+                inner = cb.loads(x)
+            except cb.CborError:
+                return x
+            if isinstance(inner, (cb.Tag, cb.Pairs, list)):
+                return cb.enc(rec(inner))
+        return x
+
+    return cb.enc(rec(cb.loads(data)))
+
+
+def check_tag_widths(acc):
+    """The tag NUMBER marks the item: 107 / 18 / 96 written with a 2-, 4- or 8-byte argument are the same tags. Parse may refuse a
+    non-shortest encoding, but when it accepts the input the description is the one shown for the shortest encoding - at the top level
+    and for nested dependency envelopes alike."""
+    enc = {"suit-parameter-encryption-info": PARAM_VALUES["suit-parameter-encryption-info"]}
+    child = env(man={"suit-reference-uri": "child"}, auth=auth_block())
+    desc = env(man={"suit-validate": [{"suit-directive-override-parameters": enc}]}, auth=auth_block(), members={"suit-integrated-dependencies": {"#dep": child},
+                                                                                                               "suit-integrated-payloads": {"#p": "0011"}})
+    ref = refenc.envelope(copy.deepcopy(desc))
+    shown = sut.parse_mem(ref)
+    if "#dep" not in (shown.get("SUIT_Envelope_Tagged", {}).get("suit-integrated-dependencies") or {}):
+        raise Violation("a nested envelope (tag 107) is not shown under suit-integrated-dependencies", "dependency recognised by its tag")
+    for tag, nth_choices in ((107, (None, 0, 1)), (18, (None, 1)), (96, (None,))):
+        for width in (2, 4, 8):
+            for nth in nth_choices:
+                try:
+                    wide = _widen_tags(ref, tag, width, nth)
+                except Exception as e:
+                    raise boot.HarnessError(f"cannot widen tag {tag}: {type(e).__name__}: {e}")
+                if wide == ref:
+                    raise boot.HarnessError(f"tag {tag} occurrence {nth} not found in the reference envelope")
+                acc.case(nt_key=("tag-width", tag, width, nth), classes=["tags", "tag-width"], sample={"direction": "tag-width", "tag": tag, "width": width, "occurrence": nth, "bytes": wide.hex()},
+                         sample_key=f"tagw/{tag}")
+                try:
+                    got = sut.parse_mem(wide)
+                except boot.HarnessError:
+                    raise
+                except Exception:
+                    continue
+                # embedded envelopes are shown as the hex of their bytes, which legitimately contain the wider tag head: compare everything else
+                if _shape(got) != _shape(shown):
+                    raise Violation(f"tag {tag} written with a {width}-byte argument ({'every occurrence' if nth is None else 'occurrence %d' % nth}) is accepted but shown differently: "
+                                    f"{_first_difference(_shape(got), _shape(shown))}", "same description as for the shortest encoding, or refusal", bucket=f"tag-width:{tag}")
+
+
+def _shape(x):
+    if isinstance(x, dict):
+        return {k: _shape(v) for k, v in x.items()}
+    if isinstance(x, list):
+        return [_shape(v) for v in x]
+    if isinstance(x, str) and len(x) >= 16 and all(c in "0123456789abcdefABCDEF" for c in x):
+        return "<hex>"
+    return x
+
+
+def _first_difference(a, b, path="$"):
+    if type(a) is not type(b):
+        return f"{path}: {type(a).__name__} vs {type(b).__name__}"
+    if isinstance(a, dict):
+        if list(a) != list(b):
+            return f"{path}: keys {list(a)[:6]} vs {list(b)[:6]}"
+        for k in a:
+            d = _first_difference(a[k], b[k], f"{path}/{k}")
+            if d:
+                return d
+        return ""
+    if isinstance(a, list):
+        if len(a) != len(b):
+            return f"{path}: {len(a)} vs {len(b)} items"
+        for i, (x, y) in enumerate(zip(a, b)):
+            d = _first_difference(x, y, f"{path}[{i}]")
+            if d:
+                return d
+        return ""
+    return "" if a == b else f"{path}: {str(a)[:40]!r} vs {str(b)[:40]!r}"
+
+
 def inventory():
     """Names reachable in the tool's vocabulary that vf/registry.py does not know (informational)."""
     try:
@@ -413,6 +596,9 @@ def run_shard(ctx, spec):
         for sp, tab in R.KEY_SPACES.items():
             for name in tab:
                 _do(acc, "decode", {"space": sp, "name": name}, check_decode, sp, name)
+        for sp, tab in R.KEY_SPACES.items():
+            for name in tab:
+                _do(acc, "text-spelling", {"space": sp, "name": name, "spelling": True}, check_text_spelling, sp, name)
     elif kind == "foreign":
         i = 0
         for home, tab in R.KEY_SPACES.items():
@@ -429,6 +615,10 @@ def run_shard(ctx, spec):
             check_tags(acc)
         except Violation as v:
             acc.fail("tags", {}, v.observed, v.expected)
+        try:
+            check_tag_widths(acc)
+        except Violation as v:
+            acc.fail("tag-widths", {"tag_widths": True}, v.observed, v.expected, bucket=v.bucket)
     return acc
 
 
@@ -441,6 +631,10 @@ def replay(ctx, check, case):
             check_decode(case["space"], case["name"], acc)
         elif check == "foreign":
             check_foreign(case["name"], case["home"], case["space"], acc)
+        elif check == "text-spelling":
+            check_text_spelling(case["space"], case["name"], acc)
+        elif check == "tag-widths":
+            check_tag_widths(acc)
         else:
             check_tags(acc)
     except Violation as v:
